@@ -100,6 +100,8 @@ func (s *state) walk(node ast.Node) {
 		s.autoescape = enclosing
 	case *ast.HeaderParamNode:
 		// TODO: Validate param types.
+	case *ast.SoyDocNode:
+		// a /** */ comment inside a template body is a comment: it renders nothing.
 	case *ast.ListNode:
 		for _, node := range node.Nodes {
 			s.walk(node)
